@@ -499,7 +499,7 @@ def run_case(key, tier, res):
             if solvable:
                 sp = ex.path_to(goal_states[0])
                 viol(
-                    f"if:misses-solution:{status}",
+                    f"if:misses-solution:{status}" + (":if-valued-fluent-read-by-effect-condition" if _if_valued_fluent_in_effect_condition(pb) else ""),
                     f"the problem is solvable (e.g. {space.steps(sp)}) but the meta-engine answered {status} after {len(calls)} planner call(s)",
                     status=status,
                     reference_plan=space.steps(sp),
@@ -558,6 +558,25 @@ def run_case(key, tier, res):
         res.count("oversub:unsolvable_agreed")
     else:
         res.count("oversub:other_status_not_judged:" + status)
+
+
+def _if_valued_fluent_in_effect_condition(pb):
+    """Some effect assigns a value containing an interpreted function to a fluent that an effect *condition* of the problem reads
+    (the remover marks such a fluent unknown and drops the assignment, but leaves effect conditions reading the stale value)."""
+    from vk.ref.evalx import fluents_in
+
+    targets = set()
+    for a in pb.actions:
+        for e in a.effects:
+            if pb.environment.interpreted_functions_extractor.get(e.value):
+                targets.add(e.fluent.fluent().name)
+    if not targets:
+        return False
+    for a in pb.actions:
+        for e in a.effects:
+            if e.is_conditional() and {f.name for f in fluents_in(e.condition)} & targets:
+                return True
+    return False
 
 
 def _metric_goals(pb):
